@@ -251,7 +251,7 @@ func execRoute(input string) string {
 		case "resub":
 			i, _ := strconv.Atoi(f[1])
 			if i == -1 {
-				(*ex.GetSource()).(*vsource).Subscribe(subsList(f[2]))
+				(*ex.GetSource()).(interface{ Subscribe([]string) }).Subscribe(subsList(f[2])) // *vsource or *vsourceAlt
 			} else if i >= 0 && i < len(specs) {
 				if specs[i].self != nil {
 					specs[i].self.Subscribe(subsList(f[2]))
